@@ -454,7 +454,9 @@ fn gen_value(rng: &mut Rng, depth: usize, dups: bool, numclass: usize) -> Value 
 		1 => Value::String(gen_string(rng).as_str().into()),
 		2 | 3 => num(&match numclass {
 			// 0: 64-bit integers and short decimals (everything must hold)
-			0 => match rng.below(5) {
+			0 => match rng.below(6) {
+				// zero in every spelling that has a fraction (spelling must survive; only the sign may be lost)
+				5 => rng.pick(&["0.0", "-0.0", "0.00", "0.0e5", "0.0E-2", "-0.000", "0.0e+0", "0", "-0"]).to_string(),
 				0 => format!("{}", rng.next() as i64),
 				1 => format!("{}", rng.next()),
 				2 => rng.pick(&["0", "-0", "18446744073709551615", "-9223372036854775808", "9223372036854775807", "9223372036854775808", "1.5", "-0.0", "0.1", "1.0", "4.50", "1.0e2", "12.5E-3", "1.7976931348623157e308", "5e-324", "0.000001"]).to_string(),
@@ -490,7 +492,17 @@ fn gen_sj(rng: &mut Rng, depth: usize) -> serde_json::Value {
 	match k {
 		0 => rng.pick(&[S::Null, S::Bool(true), S::Bool(false)]).clone(),
 		1 => S::String(gen_string(rng)),
-		2 | 3 => match rng.below(4) {
+		2 | 3 => match rng.below(5) {
+			// numbers that reach serde_json through its text parser, in every spelling of the number grammar
+			4 => {
+				let sp = if rng.chance(1, 2) {
+					rng.pick(&["1.50", "1E2", "-0", "-0.0", "0.0", "100000000000000000000", "0.1234567890123456789", "1e5", "1.0", "2.0", "10.0", "1e-7", "18446744073709551615", "18446744073709551616",
+						"-9223372036854775808", "-9223372036854775809", "9007199254740993", "4.50e+3", "0.000001", "1E+21"]).to_string()
+				} else {
+					crate::gen::number_spelling(rng)
+				};
+				serde_json::from_str::<S>(&sp).unwrap_or(S::Null)
+			}
 			0 => S::Number(edge!(rng, [u64::MAX, 0, 1 << 63, (1 << 53) + 1], rng.next()).into()),
 			1 => S::Number(edge!(rng, [i64::MIN, -1, i64::MIN + 1], -(rng.next() as i64).abs()).into()),
 			_ => {
@@ -553,12 +565,26 @@ pub fn record(args: &Args) {
 		}
 		let numclass = if i % 3 == 2 { 1 } else { 0 };
 		if want("value_ser") {
-			let v = gen_value(&mut rng, 1 + i % 3, i % 2 == 1, numclass);
-			let outc = crate::serdev::ser_outcome(guarded(|| json_syntax::to_value(&v)));
-			lines.push(json!({"ev": "value_ser", "v": project(&v), "out": outc}));
+			let mut vs = vec![gen_value(&mut rng, 1 + i % 3, i % 2 == 1, numclass)];
+			if i == 0 {
+				// fixed witnesses of the known findings K1 and K4, so that every run reports them
+				vs.push(Value::Array(vec![num("1e5")]));
+				vs.push(Value::Object(vec![Entry::new("$serde_json::private::Number".into(), Value::String("12".into()))].into_iter().collect()));
+				// zero with a fraction keeps its spelling (only the sign may go)
+				vs.push(Value::Array(vec![num("0.0"), num("-0.0"), num("0.00"), num("0.0e5"), num("-0")]));
+			}
+			for v in vs {
+				let outc = crate::serdev::ser_outcome(guarded(|| json_syntax::to_value(&v)));
+				lines.push(json!({"ev": "value_ser", "v": project(&v), "out": outc}));
+			}
 		}
 		if want("value_de") || want("text_de") {
-			let v = gen_value(&mut rng, 1 + i % 3, i % 4 == 1, numclass);
+			let v = if i == 0 {
+				// fixed witness of the known finding K2 (more than 19 significant digits)
+				Value::Array(vec![num("0.1258935271334213390012329105723384856175"), num("-6.94457046877395123285481304264976643025875091552734375e-1")])
+			} else {
+				gen_value(&mut rng, 1 + i % 3, i % 4 == 1, numclass)
+			};
 			let mut sps = vec![];
 			numbers_of(&v, &mut sps);
 			let certs: Vec<J> = sps.iter().filter_map(|s| cert64(s)).collect();
